@@ -2,15 +2,17 @@ package main
 
 import (
 	"fmt"
-	"os"
 	"go/token"
+	"os"
 	"sort"
 	"strings"
 
 	"golang.org/x/tools/go/ssa"
 )
 
-func init() { register("C08", "branches, loops, break/continue/return do what their syntax says", checkC08) }
+func init() {
+	register("C08", "branches, loops, break/continue/return do what their syntax says", checkC08)
+}
 
 // scriptLoops returns the natural loops of fn that execute a statement operand which is not a list element (a loop body).
 func scriptLoops(fn *ssa.Function, va *evalAnalysis) []*Loop {
@@ -370,15 +372,15 @@ func checkC08(p *Program, r *Report) {
 		}
 		bad := ""
 		n := 0
+		bf := &bodyFlow{m: m, base: m.baseOf(h)}
+		bBefore, _ := runForward[bool](h, bf)
 		for _, e := range va.events[h] {
 			if e.role != "stmt" {
 				continue
 			}
 			n++
-			for d := range e.done {
-				if strings.HasPrefix(d, "stmt:") {
-					bad = "the body " + strings.Join(e.operands, "|") + " can run after " + strings.TrimPrefix(d, "stmt:") + " already ran"
-				}
+			if bBefore[e.call] {
+				bad = "the body " + normIdx(strings.Join(e.operands, "|")) + " can run although another branch body already ran on the same path"
 			}
 		}
 		r.Check(bad == "" && n >= 2, "C08.R6", k+"|one-body", p.Pos(h.Pos()), fmt.Sprintf("%d branch bodies, at most one on any path", n), bad)
@@ -571,3 +573,22 @@ func (m *vmModel) storesNilToDefers(fn *ssa.Function) bool {
 	}
 	return false
 }
+
+// bodyFlow: may-analysis "a branch body has already been executed" for the if / switch handlers.
+type bodyFlow struct {
+	m    *vmModel
+	base ssa.Value
+}
+
+func (f *bodyFlow) Entry() bool      { return false }
+func (f *bodyFlow) Copy(s bool) bool { return s }
+func (f *bodyFlow) Join(a, b bool) (bool, bool) {
+	return a || b, (a || b) != a
+}
+func (f *bodyFlow) Instr(in ssa.Instruction, s bool) bool {
+	if c, ok := in.(*ssa.Call); ok && f.m.evalRole(c, f.base) == "stmt" {
+		return true
+	}
+	return s
+}
+func (f *bodyFlow) Edge(from *ssa.BasicBlock, succ int, s bool) (bool, bool) { return s, true }
